@@ -116,7 +116,10 @@ def r10_1_4(ctx, f, pv, L, recs, V, Ln, Rt):
             if e[0] == 'bin' and e[1] in ('Eq', 'Ne'):
                 for a, b in ((e[2], e[3]), (e[3], e[2])):
                     if (b == ('const', 0) or b == ('citem', 'raw::EMPTY_ADDRESS')) and any(y[0] == 'call' and isinstance(y[1], str) and y[1].endswith('from_le_bytes') for y in walk(a)):
-                        return L.lin(a)
+                        la = L.lin(a)
+                        if la is not None and V is not None and (la - V).is_const() and (la - V).c == 0:
+                            continue          # `version == 0` is not the root-address test
+                        return la
         return None
     for rid, name, Kf, allowed, required in classes:
         seen = {}
